@@ -25,6 +25,11 @@ CLAIMS.update({
             'nearest root, OPD), decided unsat; induction over surfaces lifts them to any lens of such surfaces.',
             'floats as exact reals; one ray per trace; conic step contract for hits on the vertex sheet; Newton-Raphson geometries only in the thorough tier with a bounded unrolling; tangent rays (d.n = 0) excluded'),
 })
+CLAIMS['C03'] = ('Bounded symbolic model checking of the real RayGenerator / Optic.trace / trace_generic / FieldGroup.get_vig_factor / distribution code: '
+    'every legal aperture x field x object x telecentric combination on K<=2 lenses (all numbers symbolic, pupil position from an independent ABCD oracle): '
+    'origin, field angle, collinearity with the pupil point, unit direction towards the lens, intensity/OPD/wavelength are SMT queries decided unsat; every illegal '
+    'combination must raise ValueError on all paths; distributions: count, unit disk, shrink-only vignetting for symbolic factors.',
+    'floats as exact reals; thickness >= 0; aperture value yields a positive EPD; fields along y; distribution sizes <= 8 (12 thorough); random generator stubbed')
 NOT_YET = 'check not built yet in this round (work in progress; see DESIGN.md section 6 for the plan)'
 
 props = [json.loads(l) for l in open(os.path.join(ROOT, 'properties.jsonl'))]
